@@ -410,21 +410,22 @@ Proof.
 Qed.
 
 (* ---- the finite case: calls with at most npos positionals (all calls, if no *args) ----- *)
-Lemma fin_sound : forall tbl ops fuel K e,
+Lemma fin_sound_on : forall names tbl ops fuel K e,
   forallb (guards_in K) tbl = true -> guards_in K e = true ->
-  entry_fin_ok tbl ops fuel K e = true ->
+  entry_fin_ok_on names tbl ops fuel K e = true ->
   forall c b, bind (esig e) c = Some b -> List.length (cpos c) <= npos (esig e) ->
+  (forall k, In k (map fst (ckws c)) -> In k names) ->
   exists r, eval_method tbl ops fuel e c = Some r /\ direct ops (ename e) c = Some r.
 Proof.
-  intros tbl ops fuel K e Htbl He Hok c b Hb Hn.
-  destruct (bind_some_shape _ _ _ Hb) as [Hnd [Hin _]].
+  intros names tbl ops fuel K e Htbl He Hok c b Hb Hn Hin.
+  destruct (bind_some_shape _ _ _ Hb) as [Hnd _].
   set (n := List.length (cpos c)). set (l := map fst (ckws c)).
   assert (Hlen : List.length (call_vals c) = n + List.length l).
   { unfold call_vals, n, l. rewrite app_length, !map_length. reflexivity. }
-  unfold entry_fin_ok in Hok. rewrite forallb_forall in Hok.
+  unfold entry_fin_ok_on in Hok. rewrite forallb_forall in Hok.
   assert (Hn' : In n (seq 0 (S (npos (esig e))))) by (apply in_seq; lia).
   specialize (Hok n Hn'). rewrite forallb_forall in Hok.
-  assert (Hl : In l (lists_upto (kwnames (esig e)) (List.length (kwnames (esig e))))).
+  assert (Hl : In l (lists_upto names (List.length names))).
   { apply in_lists_upto; [exact Hin|]. apply NoDup_incl_length; [exact Hnd | exact Hin]. }
   specialize (Hok l Hl).
   (* the all-opaque skeleton is accepted because c is *)
@@ -453,4 +454,200 @@ Proof.
   exists (rmap f r). rewrite <- Hc. split.
   - rewrite (eval_method_map K) by assumption. rewrite Em. reflexivity.
   - rewrite direct_map by exact (proj1 Hr). rewrite Ed. reflexivity.
+Qed.
+
+Lemma fin_sound : forall tbl ops fuel K e,
+  forallb (guards_in K) tbl = true -> guards_in K e = true ->
+  entry_fin_ok tbl ops fuel K e = true ->
+  forall c b, bind (esig e) c = Some b -> List.length (cpos c) <= npos (esig e) ->
+  exists r, eval_method tbl ops fuel e c = Some r /\ direct ops (ename e) c = Some r.
+Proof.
+  intros tbl ops fuel K e Htbl He Hok c b Hb Hn.
+  eapply fin_sound_on; eauto. exact (proj1 (proj2 (bind_some_shape _ _ _ Hb))).
+Qed.
+
+(* calls without keywords (any number of positionals the method accepts, no *args) *)
+Theorem positional_sound : forall tbl ops fuel K e,
+  forallb (guards_in K) tbl = true -> entry_pos_ok tbl ops fuel K e = true ->
+  has_varpos (esig e) = false ->
+  forall c b, ckws c = [] -> bind (esig e) c = Some b ->
+  exists r, eval_method tbl ops fuel e c = Some r /\ direct ops (ename e) c = Some r.
+Proof.
+  intros tbl ops fuel K e Htbl Hok Hv c b Hk Hb.
+  unfold entry_pos_ok in Hok. apply andb_true_iff in Hok. destruct Hok as [Hg Hfin].
+  eapply fin_sound_on; eauto.
+  - exact (proj2 (proj2 (bind_some_shape _ _ _ Hb)) Hv).
+  - rewrite Hk. simpl. tauto.
+Qed.
+
+(* ---- *args: positionals beyond the positional parameters ------------------------------- *)
+Lemma bind_go_extra : forall ps pos kws extra,
+  has_varpos ps = true -> npos ps <= List.length pos ->
+  bind_go ps (pos ++ extra) kws =
+  option_map (fun t => let '(n, va, lo) := t in (n, va ++ extra, lo)) (bind_go ps pos kws).
+Proof.
+  induction ps as [|p ps IH]; intros pos kws extra Hv Hn; [discriminate|].
+  rewrite has_varpos_cons in Hv. rewrite npos_cons in Hn. simpl.
+  unfold is_varpos in Hv. unfold is_poskw in Hn.
+  destruct (pkind p); simpl in *.
+  - destruct pos as [|v pos']; simpl in *; [lia|].
+    destruct (mem (pname p) (map fst kws)); [reflexivity|].
+    rewrite IH by (auto; lia). destruct (bind_go ps pos' kws) as [[[n va] lo]|]; reflexivity.
+  - destruct (bind_go ps [] kws) as [[[n va] lo]|]; reflexivity.
+  - destruct (from_kw p kws); [|reflexivity].
+    rewrite IH by (auto; lia). destruct (bind_go ps pos kws) as [[[n va] lo]|]; reflexivity.
+Qed.
+
+Lemma bind_extra : forall s pos kws extra,
+  has_varpos s = true -> npos s <= List.length pos ->
+  bind s (mkcall (pos ++ extra) kws) = option_map (add_extra extra) (bind s (mkcall pos kws)).
+Proof.
+  intros s pos kws extra Hv Hn. unfold bind. simpl.
+  destruct (nodupb (map fst kws) && forallb (fun k => mem k (kwnames s)) (map fst kws)); [|reflexivity].
+  rewrite bind_go_extra by assumption.
+  destruct (bind_go s pos kws) as [[[n va] lo]|]; simpl; [|reflexivity].
+  destruct lo; reflexivity.
+Qed.
+
+Lemma eval_args_akw : forall ms b extra r c0,
+  forallb is_akw r = true -> eval_args ms b r = Some c0 ->
+  cpos c0 = [] /\ eval_args ms (add_extra extra b) r = Some c0.
+Proof.
+  intros ms b extra. induction r as [|a r IH]; intros c0 Hk H; simpl in *.
+  - inversion H; subst. split; reflexivity.
+  - apply andb_true_iff in Hk. destruct Hk as [Ha Hk].
+    destruct a as [s|p|k s]; try discriminate.
+    destruct (eval_args ms b r) as [c1|] eqn:E; [|discriminate].
+    destruct (IH c1 Hk eq_refl) as [P Q]. rewrite Q.
+    assert (Es : eval_src (add_extra extra b) s = eval_src b s) by (destruct s; reflexivity).
+    rewrite Es. destruct (eval_src b s); [|discriminate]. inversion H; subst. simpl. split; [exact P | reflexivity].
+Qed.
+
+Lemma eval_args_extra : forall ms b extra args k c',
+  star_ok ms k args = true -> eval_args ms b args = Some c' ->
+  eval_args ms (add_extra extra b) args = Some (mkcall (cpos c' ++ extra) (ckws c'))
+  /\ k <= List.length (cpos c').
+Proof.
+  intros ms b extra. induction args as [|a r IH]; intros k c' Hs H; [discriminate|].
+  simpl in Hs. destruct a as [s|p|kk s]; [| |discriminate].
+  - simpl in H. destruct (eval_args ms b r) as [c0|] eqn:E; [|discriminate].
+    destruct (IH _ _ Hs eq_refl) as [P Q]. simpl. rewrite P.
+    assert (Es : eval_src (add_extra extra b) s = eval_src b s) by (destruct s; reflexivity).
+    rewrite Es. destruct (eval_src b s); [|discriminate]. inversion H; subst. simpl. split; [reflexivity | lia].
+  - apply andb_true_iff in Hs. destruct Hs as [Hs Hk]. apply andb_true_iff in Hs. destruct Hs as [Hz Hp].
+    apply Nat.eqb_eq in Hz. subst k. simpl in H. simpl.
+    destruct (eval_args ms b r) as [c0|] eqn:E; [|discriminate].
+    destruct (eval_args_akw ms b extra r c0 Hk E) as [P Q]. rewrite Q. rewrite Hp in *.
+    inversion H; subst. simpl. rewrite P. rewrite !app_nil_r. split; [reflexivity | lia].
+Qed.
+
+Lemma direct_extra : forall ops n o pos kws extra,
+  find_op ops n = Some o -> has_varpos (osig o) = true -> npos (osig o) <= List.length pos ->
+  direct ops n (mkcall (pos ++ extra) kws) = option_map (radd_extra extra) (direct ops n (mkcall pos kws)).
+Proof.
+  intros ops n o pos kws extra Hf Hv Hn. unfold direct. rewrite Hf.
+  rewrite bind_extra by assumption. destruct (bind (osig o) (mkcall pos kws)); reflexivity.
+Qed.
+
+Lemma select_In : forall brs b br, select brs b = Some br -> In br brs.
+Proof. intros brs b br H. unfold select in H. apply find_some in H. tauto. Qed.
+
+Lemma varpos_sound : forall tbl ops fuel e pos kws extra r0,
+  varpos_ok ops e = true -> has_varpos (esig e) = true -> npos (esig e) <= List.length pos ->
+  eval_method tbl ops fuel e (mkcall pos kws) = Some r0 ->
+  direct ops (ename e) (mkcall pos kws) = Some r0 ->
+  eval_method tbl ops fuel e (mkcall (pos ++ extra) kws) = Some (radd_extra extra r0)
+  /\ direct ops (ename e) (mkcall (pos ++ extra) kws) = Some (radd_extra extra r0).
+Proof.
+  intros tbl ops fuel e pos kws extra r0 Hok Hv Hn Em Ed.
+  unfold varpos_ok in Hok. apply andb_true_iff in Hok. destruct Hok as [Hd Hbr].
+  split.
+  - rewrite eval_method_unfold in Em |- *. rewrite bind_extra by assumption.
+    destruct (bind (esig e) (mkcall pos kws)) as [b0|]; [|discriminate]. simpl.
+    change (select (ebranches e) (add_extra extra b0)) with (select (ebranches e) b0).
+    destruct (select (ebranches e) b0) as [br|] eqn:Es; [|discriminate].
+    apply select_In in Es. rewrite forallb_forall in Hbr. specialize (Hbr _ Es).
+    destruct (bform br) as [n args|m args]; [|discriminate].
+    destruct (find_op ops n) as [o'|] eqn:Fo; [|discriminate].
+    apply andb_true_iff in Hbr. destruct Hbr as [Hv' Hs].
+    destruct (eval_args (esig e) b0 args) as [c'|] eqn:Ea; [|discriminate].
+    destruct (eval_args_extra _ _ extra _ _ _ Hs Ea) as [P Q]. rewrite P.
+    destruct c' as [p' k']. simpl in *.
+    rewrite (direct_extra ops n o') by assumption. rewrite Em. reflexivity.
+  - destruct (find_op ops (ename e)) as [o|] eqn:Fo; [|discriminate].
+    apply andb_true_iff in Hd. destruct Hd as [Hv' Hle]. apply Nat.leb_le in Hle.
+    rewrite (direct_extra ops (ename e) o) by (auto; lia). rewrite Ed. reflexivity.
+Qed.
+
+(* ---- main theorem ---------------------------------------------------------------------- *)
+Theorem forward_sound : forall tbl ops fuel K e,
+  forallb (guards_in K) tbl = true ->
+  entry_ok tbl ops fuel K e = true ->
+  forall c b, bind (esig e) c = Some b ->
+  exists r, eval_method tbl ops fuel e c = Some r /\ direct ops (ename e) c = Some r.
+Proof.
+  intros tbl ops fuel K e Htbl Hok c b Hb.
+  unfold entry_ok in Hok. apply andb_true_iff in Hok. destruct Hok as [Hok Hvp].
+  apply andb_true_iff in Hok. destruct Hok as [Hg Hfin].
+  destruct (le_lt_dec (List.length (cpos c)) (npos (esig e))) as [Hle|Hgt].
+  - eapply fin_sound; eauto.
+  - destruct (has_varpos (esig e)) eqn:Hv.
+    + destruct c as [pos kws]. simpl in Hgt.
+      set (k := npos (esig e)) in *.
+      rewrite <- (firstn_skipn k pos) in Hb |- *.
+      assert (Hk : List.length (firstn k pos) = k) by (rewrite firstn_length; lia).
+      rewrite bind_extra in Hb by (auto; fold k; lia).
+      destruct (bind (esig e) (mkcall (firstn k pos) kws)) as [b0|] eqn:Hb0; [|discriminate].
+      destruct (fin_sound tbl ops fuel K e Htbl Hg Hfin _ _ Hb0) as [r0 [Em Ed]]; [simpl; fold k; lia|].
+      exists (radd_extra (skipn k pos) r0).
+      apply varpos_sound; auto. fold k. lia.
+    + destruct (bind_some_shape _ _ _ Hb) as [_ [_ Hn]]. specialize (Hn Hv). lia.
+Qed.
+
+(* ---- exactness: identical signatures reject the same calls ------------------------------- *)
+Lemma sig_same_kwnames : forall s t, sig_same s t = true -> kwnames s = kwnames t.
+Proof.
+  unfold sig_same. induction s as [|p s IH]; intros [|q t] H; simpl in H; try discriminate; [reflexivity|].
+  apply andb_true_iff in H. destruct H as [Hp H]. specialize (IH _ H).
+  unfold kwnames in *. simpl. unfold param_same in Hp.
+  apply andb_true_iff in Hp. destruct Hp as [Hp Hn]. apply andb_true_iff in Hp. destruct Hp as [Hk Hd].
+  unfold is_varpos in *. destruct (pkind p), (pkind q); simpl in *; try discriminate;
+    try (apply String.eqb_eq in Hn; rewrite Hn); rewrite IH; reflexivity.
+Qed.
+
+Lemma sig_same_bind_go : forall s t, sig_same s t = true ->
+  forall pos kws, bind_go s pos kws = bind_go t pos kws.
+Proof.
+  unfold sig_same. induction s as [|p s IH]; intros [|q t] H pos kws; simpl in H; try discriminate;
+    [reflexivity|].
+  apply andb_true_iff in H. destruct H as [Hp H]. specialize (IH _ H).
+  unfold param_same in Hp.
+  apply andb_true_iff in Hp. destruct Hp as [Hp Hn]. apply andb_true_iff in Hp. destruct Hp as [Hk Hd].
+  simpl. unfold is_varpos in Hn.
+  assert (Hdef : pdef p = pdef q).
+  { destruct (pdef p), (pdef q); simpl in Hd; try discriminate; [apply String.eqb_eq in Hd; subst|]; reflexivity. }
+  destruct (pkind p), (pkind q); simpl in *; try discriminate.
+  - apply String.eqb_eq in Hn. unfold from_kw. rewrite Hn, Hdef.
+    destruct pos; rewrite !IH; reflexivity.
+  - rewrite !IH. reflexivity.
+  - apply String.eqb_eq in Hn. unfold from_kw. rewrite Hn, Hdef. rewrite !IH. reflexivity.
+Qed.
+
+Lemma sig_same_bind : forall s t c, sig_same s t = true -> bind s c = bind t c.
+Proof.
+  intros s t c H. unfold bind. rewrite (sig_same_kwnames _ _ H). rewrite (sig_same_bind_go _ _ H). reflexivity.
+Qed.
+
+Theorem exact_sound : forall tbl ops fuel K e,
+  forallb (guards_in K) tbl = true ->
+  entry_ok tbl ops fuel K e = true -> entry_sig_same ops e = true ->
+  forall c, eval_method tbl ops fuel e c = direct ops (ename e) c.
+Proof.
+  intros tbl ops fuel K e Htbl Hok Hs c.
+  destruct (bind (esig e) c) as [b|] eqn:Hb.
+  - destruct (forward_sound _ _ _ _ _ Htbl Hok _ _ Hb) as [r [A B]]. congruence.
+  - rewrite eval_method_unfold. rewrite Hb.
+    unfold entry_sig_same in Hs. unfold direct.
+    destruct (find_op ops (ename e)) as [o|]; [|reflexivity].
+    rewrite <- (sig_same_bind _ _ c Hs). rewrite Hb. reflexivity.
 Qed.
